@@ -20,8 +20,9 @@
 (*              planned event by almost everything / half / one event (notify + cancelation,        *)
 (*              disarmable or not) x channel index of the planned event (event index mod 37 in      *)
 (*              0,1,17,18,35,36; `seek`) x hop x channel map x latency configuration                *)
-(*   "latwrap"  the same pull backs for a planned event at / after the wrap of the 16 bit event     *)
-(*              counter (planned index 65536*j + 0 | latency/2 | latency, pulled back across it)    *)
+(*              and (WLats) the same pull backs for a planned event at / after the wrap of the 16   *)
+(*              bit event counter (planned index 65536*j + 0 | latency/2 | latency, pulled back     *)
+(*              across it)                                                                          *)
 EXTENDS Integers, Sequences, FiniteSets, TLC, Json
 
 CONSTANTS Family, D,
@@ -30,8 +31,9 @@ CONSTANTS Family, D,
           Wraps,        \* fast-forward amounts used to reach the wrap of the 16 bit event counter ("instant")
           Small,        \* TRUE: reduced parameter sets (quick tier)
           NCfg,         \* number of run-time switchable latency configurations of the variant (1 if none)
-          Rots          \* rotation indices ("latbound" with Small: which hop / map / timeout / configuration is paired
-                        \* with which latency; "latwrap": which wrap position is paired with which pull back distance)
+          WLats,        \* latencies of the counter wrap behaviours of "latbound"
+          Rots          \* rotation indices of "latbound" (Small: which hop / timeout / configuration is paired with which
+                        \* latency; wrap behaviours: which wrap position is paired with which pull back distance)
 
 VARIABLES hist, stage, n
 
@@ -187,13 +189,13 @@ LatSetup(lat, hop, mp, tm, c) ==
 
 LatBoundNext ==
     /\ stage = "init"
-    /\ \E lat \in Lats, rot \in Rots :
+    /\ \E kind \in {"grid", "wrap"} : \E lat \in (IF kind = "grid" THEN Lats ELSE WLats), rot \in Rots :
        \E hop \in (IF Small THEN {HopSeq[((lat + rot) % 3) + 1]} ELSE {5, 9, 16}),
-          mp  \in (IF Small THEN {FullMap} ELSE {FullMap, SparseMap}),
-          tm  \in (IF Small THEN {(lat + rot) % 2} ELSE {0, 1}),
+          mp  \in (IF Small \/ kind = "wrap" THEN {FullMap} ELSE {FullMap, SparseMap}),
+          tm  \in (IF Small \/ kind = "wrap" THEN {(lat + rot) % 2} ELSE {0, 1}),
           c   \in (IF NCfg = 1 THEN {0} ELSE IF Small THEN {IF (lat + rot) % 2 = 0 THEN NCfg - 1 ELSE 1} ELSE 0..(NCfg - 1)) :
             DoAll(LatSetup(lat, hop, mp, tm, c)
-                  \o (IF Family = "latwrap" THEN WrapRounds(lat, rot) ELSE GridRounds(lat))
+                  \o (IF kind = "wrap" THEN WrapRounds(lat, rot) ELSE GridRounds(lat))
                   \o << Step(0, 0, 1), Step(0, 0, 1) >>)
     /\ stage' = "done" /\ n' = n
 
@@ -236,7 +238,7 @@ GNext ==
     \/ Family = "update"  /\ UpdateNext
     \/ Family = "latency" /\ LatencyNext
     \/ Family = "instant" /\ InstantNext
-    \/ Family \in {"latbound", "latwrap"} /\ LatBoundNext
+    \/ Family = "latbound" /\ LatBoundNext
 
 GSpec == GInit /\ [][GNext]_gvars
 
